@@ -172,6 +172,67 @@ def njit_functions():
     return out
 
 
+def int_typed_names(node, deco):
+    """Names that numba types as integers: i8 parameters of the declared signature, range() loop
+    variables, and names only ever assigned integer expressions over such names."""
+    import re
+
+    ints = set()
+    m = re.search(r"\(([^)]*)\)", deco.split("(", 1)[1] if "(" in deco else "")
+    sig = re.search(r"[\"']\s*\w+\(([^)]*)\)", deco)
+    if sig:
+        types = [t.strip() for t in sig.group(1).split(",")]
+        for a, t in zip(node.args.args, types):
+            if t.startswith(("i", "u")) and "[" not in t:
+                ints.add(a.arg)
+    for n in ast.walk(node):
+        if isinstance(n, ast.For) and isinstance(n.iter, ast.Call) and isinstance(n.iter.func, ast.Name) and n.iter.func.id == "range" and isinstance(n.target, ast.Name):
+            ints.add(n.target.id)
+    changed = True
+    floats = set()
+    while changed:
+        changed = False
+        for n in ast.walk(node):
+            if isinstance(n, ast.Assign) and len(n.targets) == 1 and isinstance(n.targets[0], ast.Name):
+                nm = n.targets[0].id
+                if is_int_expr(n.value, ints):
+                    if nm not in ints and nm not in floats:
+                        ints.add(nm)
+                        changed = True
+                else:
+                    if nm in ints:
+                        ints.discard(nm)
+                    if nm not in floats:
+                        floats.add(nm)
+                        changed = True
+    return ints - floats
+
+
+def is_int_expr(e, ints):
+    if isinstance(e, ast.Constant):
+        return isinstance(e.value, int) and not isinstance(e.value, bool)
+    if isinstance(e, ast.Name):
+        return e.id in ints
+    if isinstance(e, ast.UnaryOp) and isinstance(e.op, (ast.USub, ast.UAdd)):
+        return is_int_expr(e.operand, ints)
+    if isinstance(e, ast.BinOp) and isinstance(e.op, (ast.Add, ast.Sub, ast.Mult, ast.FloorDiv, ast.Mod)):
+        return is_int_expr(e.left, ints) and is_int_expr(e.right, ints)
+    if isinstance(e, ast.Call) and isinstance(e.func, ast.Name) and e.func.id == "int":
+        return True
+    return False
+
+
+def nonneg_exponent(e):
+    """Exponent that is not *syntactically* negated: no unary minus, no negative literal.  (A
+    variable exponent holding a negative value is beyond an AST lemma; that case is left to the
+    differential stand-in.)"""
+    if isinstance(e, ast.UnaryOp) and isinstance(e.op, ast.USub):
+        return False
+    if isinstance(e, ast.Constant) and isinstance(e.value, (int, float)) and e.value < 0:
+        return False
+    return True
+
+
 def sec_ast(rep):
     fns = njit_functions()
     rep.add(ob_eval("C18/njit-functions-found", len(fns) >= 100, detail=f"{len(fns)} njit functions"))
@@ -180,7 +241,10 @@ def sec_ast(rep):
     for name, node, tree, deco in fns:
         rep.cases += 1
         bad = []
+        ints = int_typed_names(node, deco)
         for n in ast.walk(node):
+            if isinstance(n, ast.BinOp) and isinstance(n.op, ast.Pow) and is_int_expr(n.left, ints) and not nonneg_exponent(n.right):
+                bad.append(f"line {n.lineno}: integer-typed base ** negated exponent ({ast.unparse(n)[:60]}): a float in CPython, an integer power (0 for |base|>1) in numba")
             if isinstance(n, ast.BinOp) and isinstance(n.op, (ast.FloorDiv, ast.Mod)):
                 bad.append(f"line {n.lineno}: floor division / modulo (sign conventions differ for floats)")
             if isinstance(n, ast.BinOp) and isinstance(n.op, ast.Pow):
